@@ -70,7 +70,7 @@ func genC05() *rapid.Generator[c05Case] {
 				k := unif(t, "op", 20)
 				switch {
 				case k < 11:
-					op := c05Op{Op: "ingest", Kind: pick(t, "kind", []string{"good", "good", "good", "empty", "bad"}), Chan: pick(t, "chan", []string{"buf", "buf", "unbuf", "nil"}), Rows: rapid.IntRange(1, 3).Draw(t, "rows")}
+					op := c05Op{Op: "ingest", Kind: pick(t, "kind", []string{"good", "good", "good", "empty", "bad"}), Chan: pick(t, "chan", []string{"buf", "buf", "unbuf", "nil", "shared"}), Rows: rapid.IntRange(1, 3).Draw(t, "rows")}
 					if c.StartMode == "never" || c.StartMode == "late" || chance(t, "ctx", 30) {
 						op.CtxMs = pick(t, "ctxms", []int{20, 50, 200})
 					}
@@ -266,7 +266,7 @@ func runC05(c c05Case) *Violation {
 			acc, kind, ck, cerr := b.Accepted, b.Kind, b.ChanKind, b.CallErr
 			b.mu.Unlock()
 			vals := b.values()
-			if ck == "nil" {
+			if ck == "nil" || ck == "shared" {
 				continue
 			}
 			if !acc {
@@ -294,6 +294,30 @@ func runC05(c c05Case) *Violation {
 	book.Collect()
 	if v := check("after quiescence"); v != nil {
 		return v
+	}
+	// batches that share ONE done channel: one value per accepted batch
+	sharedAccepted, sharedAny := 0, 0
+	for _, b := range book.All() {
+		if b.ChanKind != "shared" {
+			continue
+		}
+		sharedAny++
+		b.mu.Lock()
+		if b.Accepted {
+			sharedAccepted++
+		}
+		b.mu.Unlock()
+	}
+	if sharedAny > 0 {
+		book.mu.Lock()
+		got := len(book.SharedRecv)
+		book.mu.Unlock()
+		if got != sharedAccepted {
+			return violf("%d accepted batches were given the same buffered done channel (capacity 4096) and Stop returned nil, but %d values arrived on it (want one per accepted batch)", sharedAccepted, got)
+		}
+		if sharedAccepted >= 2 {
+			Ev.Class("shared-done-channel(>=2 batches)")
+		}
 	}
 	accepted := 0
 	for _, b := range book.All() {
@@ -324,7 +348,7 @@ func runC05(c c05Case) *Violation {
 var procsMu sync.Mutex
 
 func TestC05(t *testing.T) {
-	Ev.Rule = "case = schedule: 1-4 client goroutines with 1-6 operations each (IngestRows of good/empty/unmarshalable batches with buffered cap-4, live-drained unbuffered or nil done channels, optional ctx timeouts and contexts whose Done() is slow; Flush; at most one scripted Stop; Query; Merge; pauses), engine started first / late / twice / never, IngestBufferSize 1..1000, row/byte/time/partition flush triggers, stores with per-call latency and up to two one-shot failures, GOMAXPROCS varied. Invariant judged on the recorded history once Stop returned nil: every batch whose IngestRows returned nil has received exactly one value (checked right after Stop and after a quiescence window), every accepted Flush has returned, no batch is answered twice, unmarshalable batches get an error. stoprace phase: callers held between the stopped check and the enqueue by a Context whose Done() parks, released before/during/after Stop (same invariant). Non-trivial: >=1 accepted non-empty batch and (IngestRows accepted while Stop was running, or accepted before Start, or a store failure fired, or a non-Flush trigger configured); distinct by case."
+	Ev.Rule = "case = schedule: 1-4 client goroutines with 1-6 operations each (IngestRows of good/empty/unmarshalable batches with buffered cap-4, live-drained unbuffered, nil, or one channel shared by several batches, optional ctx timeouts and contexts whose Done() is slow; Flush; at most one scripted Stop; Query; Merge; pauses), engine started first / late / twice / never, IngestBufferSize 1..1000, row/byte/time/partition flush triggers, stores with per-call latency and up to two one-shot failures, GOMAXPROCS varied. Invariant judged on the recorded history once Stop returned nil: every batch whose IngestRows returned nil has received exactly one value (checked right after Stop and after a quiescence window), every accepted Flush has returned, no batch is answered twice, unmarshalable batches get an error. stoprace phase: callers held between the stopped check and the enqueue by a Context whose Done() parks, released before/during/after Stop (same invariant). Non-trivial: >=1 accepted non-empty batch and (IngestRows accepted while Stop was running, or accepted before Start, or a store failure fired, or a non-Flush trigger configured); distinct by case."
 	Ev.Assumptions = []string{"a Stop that does not return nil imposes no C05 obligation (C08 judges Stop)", "interleavings that cross neither a client call nor a store call are left to the Go scheduler and repetition"}
 	runChecks(t, "schedules", 300, 10000, genC05(), runC05)
 	runChecks(t, "stoprace", 60, 1500, genStopRace(), runStopRace)
